@@ -69,6 +69,8 @@ def mix_tags(case):
     line, out = case.get('line', ''), case.get('real') or ''
     kind = line.split('|', 1)[0]
     tags = ['kind:' + kind]
+    if case.get('pyflags'):
+        tags.append('interpreter:python ' + ' '.join(case['pyflags']))
     if out.startswith('EXC:') or ' EXC:' in out or '=EXC:' in out:
         tags.append('outcome:' + out[out.index('EXC:'):].split()[0].split(';')[0][:30])
     elif out == 'TIMEOUT':
